@@ -930,6 +930,17 @@ func replay() {
 		return
 	}
 	s := symbolByName(c.Symbol)
+	if s == nil && strings.Contains(c.Symbol, "-huge") && c.Content != "" {
+		// huge symbols are rebuilt from the recorded content
+		for _, sp := range onedSpecs {
+			if strings.HasPrefix(c.Symbol, sp.name+"-huge") {
+				sp.contents = [2]string{c.Content, c.Content}
+				sp.name += "-huge"
+				sp.modules = 0
+				s = onedSymbol(sp, 0)
+			}
+		}
+	}
 	if s == nil {
 		fmt.Println("replay: symbol", c.Symbol, "cannot be prepared (see violations above)")
 		return
@@ -960,6 +971,7 @@ func main() {
 	runDM()
 	runOneD()
 	runLargeScales()
+	runHugeSymbols()
 	runHintedQR()
 	runHistory()
 	runSharedHints()
